@@ -9,8 +9,22 @@ discharge it when the actual arguments refute a guard (this is how
 `limbs[LIMBS-1] <= MASK`, rule D-mask) and *predicates* on parameters that a
 reviewed table row attaches to a kernel site (`nonzero(divisor)`, rule D-zero).
 """
+import json
+import os
 import re
-from . import absint, ir, panics
+from . import absint, ir, linear, panics
+
+_LP = os.path.join(os.path.dirname(os.path.dirname(os.path.abspath(__file__))), "tables", "linear_pre.json")
+
+
+def load_linear_pre():
+    """Documented length preconditions of the kernels (tables/linear_pre.json): assumed inside the function, proved at
+    every call site inside the crate."""
+    try:
+        with open(_LP) as fh:
+            return json.load(fh)
+    except OSError:
+        return {}
 
 MAX_DEPTH = 40
 
@@ -65,11 +79,11 @@ def param_key(view, ai, key):
 # run-time lengths and quotient digits and is the value contract of C12 / C14 (not applicable).  The multiplication
 # kernels, cmp, the shift helpers and the double-word ops ARE in scope: their indices are decided by the interval
 # engine (equal-length assumptions, min(), Rev<Range>, tuple-carried slice lengths).
-KERNEL_OUT_OF_SCOPE = ("src/algorithms/div", "src/algorithms/gcd")
+KERNEL_OUT_OF_SCOPE = ()
 
 
 def default_implicit_scope(body):
-    return not body["file"].startswith(KERNEL_OUT_OF_SCOPE)
+    return not (KERNEL_OUT_OF_SCOPE and body["file"].startswith(KERNEL_OUT_OF_SCOPE))
 
 
 class Totality:
@@ -86,6 +100,9 @@ class Totality:
         self.table_used = set()
         self.row_failures = []
         self.discharge_log = []
+        self.linear_pre = load_linear_pre()
+        self.lin_memo = {}
+        self.linear_pre_used = set()
 
     # ------------------------------------------------------------------
     def ai(self, key, cfg):
@@ -1234,6 +1251,11 @@ class Totality:
                     if 0 <= c < (1 << bits) or (bits == 0 and c == 0):
                         self.discharge_log.append((key, cfg, "local-call", name, "D-lit %d < 2^%d" % (c, bits)))
                         continue
+            for tk in targets:
+                for miss in self._linear_preconditions(view, bi, t, tk):
+                    self.stats["sites"] += 1
+                    out.append(Residual(key, "precondition", "%s requires %s" % (tk.rsplit("::", 1)[-1], miss), view.where(bi),
+                                        None, [key], self._guards_for(view, a, bi), []))
             for tk in targets + indirect:
                 ccfg = self.callee_cfg(view, f, tk, cfg)
                 if ccfg == "any":
@@ -1339,7 +1361,150 @@ class Totality:
         return self._dyn
 
     # ------------------------------------------------------------------
+    def lin(self, view):
+        k = (view.body["key"], view.cfg)
+        if k not in self.lin_memo:
+            pre = self.linear_pre.get(view.body["key"])
+            forms = linear.parse_pre(view, pre["pre"]) if pre else []
+            if pre:
+                self.linear_pre_used.add(view.body["key"])
+            self.lin_memo[k] = linear.Prover(view, forms)
+        return self.lin_memo[k]
+
+    def _discharge_linear(self, view, site):
+        """D-lin: relational discharge over linear forms of lengths, loop variables and const parameters."""
+        P = self.lin(view)
+        t = site.term
+        bi = site.block
+        try:
+            if site.kind == "assert:BoundsCheck":
+                fi, fl = P.form(t["index"]), P.form(t["len"])
+                if fi is not None and fl is not None and P.lt(fi, fl, bi):
+                    return "D-lin: index < len by linear facts"
+                return None
+            if site.kind.startswith("assert:Overflow") and t.get("op") == "Sub" and "a" in t and "b" in t:
+                # unsigned `a - b` in an overflow-checked build: does not wrap when a - b >= 0 follows from linear facts
+                tn = None
+                for o in (t["a"], t["b"]):
+                    if o.get("o") == "const":
+                        tn = tn or o.get("ty")
+                    elif not o["p"]:
+                        tn = tn or view.local_tyname(o["l"])
+                if tn in ("usize", "u64", "u32", "u16", "u8", "u128"):
+                    fa, fb = P.form(t["a"]), P.form(t["b"])
+                    if fa is not None and fb is not None and P.le(fb, fa, bi):
+                        return "D-lin: a - b >= 0 by linear facts"
+                return None
+            if site.kind != "foreign":
+                return None
+            name = site.callee
+            args = t["args"]
+
+            def reflen(op):
+                if op.get("o") in ("copy", "move") and not op["p"]:
+                    return P.len_form(op["l"])
+                return None
+            if "index::Index" in name and len(args) == 2 and "for str>" not in name:
+                fl = reflen(args[0])
+                rp = P._range_parts(args[1])
+                if fl is None:
+                    return None
+                if rp is None:
+                    fi = P.form(args[1])
+                    if fi is not None and P.lt(fi, fl, bi):
+                        return "D-lin: index < len"
+                    return None
+                kind, s_op, e_op = rp
+                fs = P.form(s_op) if s_op is not None else linear.Form(0)
+                fe = P.form(e_op) if e_op is not None else fl
+                if fs is None or fe is None:
+                    return None
+                if kind in ("toincl", "incl"):
+                    fe = fe.add(linear.Form(1))
+                if P.le(fs, fe, bi) and P.le(fe, fl, bi):
+                    return "D-lin: start <= end <= len"
+                return None
+            if (name.endswith("::split_at") or name.endswith("::split_at_mut")) and "str" not in name and len(args) == 2:
+                fl, fm = reflen(args[0]), P.form(args[1])
+                if fl is not None and fm is not None and P.le(fm, fl, bi):
+                    return "D-lin: mid <= len"
+                return None
+            if name.endswith("::copy_from_slice") and len(args) == 2:
+                fa, fb = reflen(args[0]), reflen(args[1])
+                if fa is not None and fb is not None and P.le(fa, fb, bi) and P.le(fb, fa, bi):
+                    return "D-lin: equal lengths"
+                return None
+            if name.endswith("::copy_within") and len(args) == 3:
+                fl = reflen(args[0])
+                rp = P._range_parts(args[1])
+                fd = P.form(args[2])
+                if fl is None or rp is None or fd is None:
+                    return None
+                kind, s_op, e_op = rp
+                fs = P.form(s_op) if s_op is not None else linear.Form(0)
+                fe = P.form(e_op) if e_op is not None else fl
+                if fs is None or fe is None:
+                    return None
+                if kind in ("toincl", "incl"):
+                    fe = fe.add(linear.Form(1))
+                cnt = fe.add(fs, -1)
+                if P.le(fs, fe, bi) and P.le(fe, fl, bi) and P.le(fd.add(cnt), fl, bi):
+                    return "D-lin: src in bounds and dest + count <= len"
+                return None
+        except RecursionError:
+            return None
+        return None
+
+    def _linear_preconditions(self, view, bi, t, tk):
+        """Documented length preconditions of callee tk, to be proved at this call: [] when all hold, else the
+        list of preconditions (as text) that the caller does not establish."""
+        pre = self.linear_pre.get(tk)
+        if not pre:
+            return []
+        self.linear_pre_used.add(tk)
+        P = self.lin(view)
+        missing = []
+        for text, f in zip(pre["pre"], linear.parse_pre(view, pre["pre"])):
+            g = linear.Form(f.c)
+            ok = True
+            for atom, k in f.t.items():
+                lf = None
+                if atom[0] in ("arglen", "arg") and 0 <= atom[1] - 1 < len(t["args"]):
+                    op = t["args"][atom[1] - 1]
+                    if atom[0] == "arg":
+                        lf = P.form(op)
+                    elif op.get("o") in ("copy", "move") and not op["p"]:
+                        lf = P.len_form(op["l"])
+                elif atom[0] == "param":
+                    # const generic argument of the callee at this call
+                    lf = self._callee_param_form(view, P, t, tk, atom[1])
+                if lf is None:
+                    ok = False
+                    break
+                g = g.add(lf, k)
+            if not (ok and P.prove(g, bi)):
+                missing.append(text)
+        return missing
+
+    def _callee_param_form(self, view, P, t, tk, name):
+        cb = self.prog.bodies[tk]
+        consts = [n for kind, n in cb["generics"] if kind == "const"]
+        cargs = [a for a in t["fn"].get("args", []) if isinstance(a, dict) and (a.get("c") in ("lit", "param") or a.get("k") == "const")]
+        if name not in consts or len(cargs) != len(consts):
+            return None
+        a = cargs[consts.index(name)]
+        if a.get("k") == "const":
+            a = a.get("v", a)
+        if isinstance(a, dict) and a.get("c") == "lit":
+            return linear.Form(a["v"])
+        if isinstance(a, dict) and a.get("c") == "param":
+            return P._param(a["n"])
+        return None
+
     def _discharge_local(self, view, a, st, site):
+        return self._discharge_local0(view, a, st, site) or self._discharge_linear(view, site)
+
+    def _discharge_local0(self, view, a, st, site):
         t = site.term
         if site.kind == "assert:BoundsCheck":
             if a.known_less(st, t["index"], t["len"]):
